@@ -103,6 +103,9 @@ type IterInfo struct {
 	m     SVal
 	mt    *types.Map
 	isStr bool
+	// visited: the keys the iteration has produced so far (Array K Bool); every Next yields a
+	// key of the map that is not yet visited, and reports exhaustion only when all are
+	visited *Term
 }
 
 // SVal is a runtime value of the symbolic executor: a term plus address-like extras.
@@ -164,6 +167,10 @@ func (st *State) clone() *State {
 		nf := *f
 		nf.vals = make(map[ssa.Value]SVal, len(f.vals))
 		for k, v := range f.vals {
+			if v.Iter != nil {
+				it := *v.Iter
+				v.Iter = &it
+			}
 			nf.vals[k] = v
 		}
 		nf.locals = make(map[string]SVal, len(f.locals))
@@ -492,6 +499,12 @@ func (ex *Exec) localsEnv(st *State, fr *Frame, env *Env) {
 	for k, v := range ex.fc.params {
 		env.oldVars[k] = v
 	}
+	// the visited set of the map iteration of loop k: visited@Lk
+	for _, li := range ex.u.loopsOf(fr.fn) {
+		for _, it := range ex.loopIters(fr, li) {
+			env.vars[fmt.Sprintf("visited@L%d", li.Ordinal)] = Val{T: it.visited}
+		}
+	}
 	// names: Alloc.Comment; duplicates get @k suffix in declaration order
 	count := map[string]int{}
 	var allocs []*ssa.Alloc
@@ -541,6 +554,26 @@ func (ex *Exec) localsEnv(st *State, fr *Frame, env *Env) {
 			}
 		}
 	}
+}
+
+// loopIters: the map iterators advanced inside the loop.
+func (ex *Exec) loopIters(fr *Frame, li *LoopInfo) []*IterInfo {
+	var out []*IterInfo
+	var blocks []*ssa.BasicBlock
+	for b := range li.Body {
+		blocks = append(blocks, b)
+	}
+	sort.Slice(blocks, func(i, j int) bool { return blocks[i].Index < blocks[j].Index })
+	for _, b := range blocks {
+		for _, in := range b.Instrs {
+			if nx, ok := in.(*ssa.Next); ok {
+				if sv, ok := fr.vals[nx.Iter]; ok && sv.Iter != nil && sv.Iter.visited != nil {
+					out = append(out, sv.Iter)
+				}
+			}
+		}
+	}
+	return out
 }
 
 func localKey(a *ssa.Alloc, path string) string {
@@ -840,6 +873,9 @@ func (ex *Exec) enterBlock(st *State, fr *Frame) bool {
 	}
 	lh := ex.havocHeap(st, fmt.Sprintf("loop%d", li.Ordinal), fc.assignSet, fc.assignAll, true)
 	lh.freshFrom = fc.entryAlloc
+	for _, it := range ex.loopIters(fr, li) {
+		it.visited = fc.d.Fresh("visited", it.visited.Sort)
+	}
 	for _, t := range evalInv() {
 		st.assume(t)
 	}
